@@ -181,12 +181,20 @@ def mutate(rng, kind_hint=None):
 
 
 def run_cmd(proj: Path, cmd: str, faillog: Path):
+    r = run_cmd_once(proj, cmd, faillog, TIMEOUT)
+    if r["timeout"]:
+        # a loaded machine is not a hang: only a command that also exceeds a much longer limit counts
+        r = run_cmd_once(proj, cmd, faillog, 4 * TIMEOUT)
+    return r
+
+
+def run_cmd_once(proj: Path, cmd: str, faillog: Path, limit: int):
     env = dict(os.environ)
     env.update({"PYTHONPATH": str(core.REPO), "THAILINT_VERIF": "1", "THAILINT_VERIF_FAILLOG": str(faillog)})
     faillog.unlink(missing_ok=True)
     try:
         p = subprocess.run(["/venv/bin/python", "-m", "src.cli_main", cmd, "--format", "json", "src"], cwd=proj, env=env, stdout=subprocess.PIPE, stderr=subprocess.PIPE,
-                           timeout=TIMEOUT)
+                           timeout=limit)
         code, out, err = p.returncode, p.stdout.decode("utf-8", "replace"), p.stderr.decode("utf-8", "replace")
     except subprocess.TimeoutExpired:
         return {"exit": None, "timeout": True, "violations": None, "fails": [], "err": ""}
@@ -309,7 +317,7 @@ def run(tier: str, seed: int, st: core.ProofStatus) -> core.Result:
                 continue
             problems = []
             if w["timeout"]:
-                problems.append(f"{cmd}: no result within {TIMEOUT} s")
+                problems.append(f"{cmd}: no result within {TIMEOUT} s, nor within {4 * TIMEOUT} s on a second attempt")
             elif w["exit"] not in (0, 1):
                 problems.append(f"{cmd}: exit {w['exit']}: {w['err'][-200:]}")
             if w["fails"]:
